@@ -1,3 +1,4 @@
+mod backend;
 mod common;
 mod hist;
 mod obs_storage;
@@ -263,6 +264,72 @@ fn run_rep(args: &Args) {
     std::fs::write(args.out.join("stats.json"), format!("{{{}}}\n", body.join(", "))).unwrap();
 }
 
+fn run_backend(args: &Args) {
+    std::fs::create_dir_all(&args.out).unwrap();
+    for v in ["HTTP_PROXY", "http_proxy", "HTTPS_PROXY", "https_proxy", "ALL_PROXY", "all_proxy"] {
+        std::env::remove_var(v);
+    }
+    let mut ops = std::io::BufWriter::new(std::fs::File::create(args.out.join("ops.txt")).unwrap());
+    let mut imp = std::io::BufWriter::new(std::fs::File::create(args.out.join("impl.out")).unwrap());
+    let mut stats: std::collections::HashMap<String, u64> = std::collections::HashMap::new();
+    let kinds: Vec<backend::Kind> = args
+        .flags
+        .iter()
+        .filter_map(|f| f.strip_prefix("--kind=").and_then(backend::Kind::parse))
+        .collect();
+    let kinds = if kinds.is_empty() {
+        vec![backend::Kind::Local, backend::Kind::Cloud, backend::Kind::Http, backend::Kind::GitLocal, backend::Kind::GitRemote]
+    } else {
+        kinds
+    };
+    let mut rng = Rng::new(args.seed);
+    for i in 0..args.cases {
+        let mut crng = rng.fork();
+        let kind = kinds[i % kinds.len()];
+        // git is slow (every call forks git several times): shorter cases
+        let len = match kind {
+            backend::Kind::GitLocal | backend::Kind::GitRemote => 4 + crng.below(args.max_len as u64 / 4 + 1) as usize,
+            _ => 5 + crng.below(args.max_len as u64) as usize,
+        };
+        let nh = 1 + crng.below(3) as usize;
+        let hdr = format!("# case {} seed={} backend={} handles={}", i, args.seed, kind.name(), nh);
+        writeln!(ops, "{}", hdr).unwrap();
+        writeln!(imp, "{}", hdr).unwrap();
+        let r = std::panic::catch_unwind(std::panic::AssertUnwindSafe(|| {
+            let mut run = backend::BackendRun::new(kind, nh);
+            let mut lines = vec![(format!("BACKEND {}", kind.name()), String::new())];
+            let mut nver = 0;
+            for _ in 0..len {
+                let l = backend::gen_line(&mut run, &mut crng, nh, &mut nver);
+                lines.push(run.exec(&l));
+            }
+            (lines, run.stats.clone())
+        }));
+        match r {
+            Ok((lines, st)) => {
+                for (l, o) in lines {
+                    writeln!(ops, "{}", l).unwrap();
+                    writeln!(imp, "> {}", shorten(&l)).unwrap();
+                    if !o.is_empty() {
+                        writeln!(imp, "{}", shorten(&o)).unwrap();
+                    }
+                }
+                for (k, v) in st {
+                    *stats.entry(format!("{}.{}", kind.name(), k)).or_insert(0) += v;
+                }
+            }
+            Err(_) => {
+                writeln!(imp, "panic").unwrap();
+            }
+        }
+        *stats.entry("cases".into()).or_insert(0) += 1;
+    }
+    let mut keys: Vec<&String> = stats.keys().collect();
+    keys.sort();
+    let body: Vec<String> = keys.iter().map(|k| format!("\"{}\": {}", k, stats[*k])).collect();
+    std::fs::write(args.out.join("stats.json"), format!("{{{}}}\n", body.join(", "))).unwrap();
+}
+
 fn run_seal(args: &Args) {
     std::fs::create_dir_all(&args.out).unwrap();
     let mut ops = std::io::BufWriter::new(std::fs::File::create(args.out.join("ops.txt")).unwrap());
@@ -460,6 +527,9 @@ fn run_store(args: &Args) {
 }
 
 fn main() {
+    // scratch directories live under /verif/.work, i.e. inside /verif's own git repository: keep
+    // the git backend from mistaking that repository for its own
+    std::env::set_var("GIT_CEILING_DIRECTORIES", work_dir());
     let a: Vec<String> = std::env::args().skip(1).collect();
     if a.is_empty() {
         eprintln!("usage: tcharness <family> [--seed N] [--cases N] [--max-len N] [--out DIR] [--corpus DIR] [--replay FILE]");
@@ -472,6 +542,7 @@ fn main() {
         "store" => run_store(&args),
         "task" => run_task(&args),
         "seal" => run_seal(&args),
+        "backend" => run_backend(&args),
         f => {
             eprintln!("unknown family {}", f);
             std::process::exit(2);
